@@ -49,20 +49,40 @@ ValF(nm) == N("valformal", nm, <<>>)
 Proc(kind, nm, formals, decls, body) == [N("proc", nm, formals \o decls \o <<body>>) EXCEPT !.f = kind]
 Lib == <<Proc("func", "id", <<ValF("v")>>, <<>>, Ret(Ref("v"))),
          Proc("func", "sub", <<ValF("p"), ValF("q")>>, <<VarD("t")>>, SeqS(<<Ass(Ref("t"), Bin("-", Ref("p"), Ref("q"))), Ret(Ref("t"))>>))>>
-Shapes == {"glob", "loc", "func", "procloc"}
+Shapes == {"glob", "loc", "func", "procloc", "ifelse", "while", "array"}
+If(c, t, e) == N("ifstmt", "", <<c, t, e>>)
+While(c, b) == N("whilestmt", "", <<c, b>>)
+Skip == N("skipstmt", "", <<>>)
+Put(v) == NV("syscallstmt", "1", 1, <<NV("syscall", "1", 1, <<Num(v), Num(0)>>)>>)
+Idx(nm, e) == N("arraysubscript", nm, <<e>>)
+ArrD(nm, n) == N("arraydecl", nm, <<Num(n)>>)
+ArrF(nm) == N("arrayformal", nm, <<>>)
 Program(shape, e, a, b) ==
   LET set == <<Ass(Ref("x"), Num(a)), Ass(Ref("y"), Num(b))>> IN
   N("program", "",
     CASE shape = "glob" -> <<VarD("x"), VarD("y"), Proc("proc", "main", <<>>, <<>>, SeqS(set \o <<Exit(e)>>))>> \o Lib
       [] shape = "loc" -> <<Proc("proc", "main", <<>>, <<VarD("x"), VarD("y")>>, SeqS(set \o <<Exit(e)>>))>> \o Lib
       [] shape = "func" -> <<Proc("proc", "main", <<>>, <<>>, Exit(Call("f", <<Num(a), Num(b)>>))), Proc("func", "f", <<ValF("x"), ValF("y")>>, <<>>, Ret(e))>> \o Lib
+      [] shape = "ifelse" -> <<VarD("x"), VarD("y"),
+                               Proc("proc", "main", <<>>, <<>>, SeqS(set \o <<If(e, Put(89), Put(78)), If(e, Skip, Put(110)), If(e, Put(121), Skip), If(e, Skip, Skip),
+                                                                              If(Un("~", e), Put(65), Put(66)), Exit(Num(7))>>))>> \o Lib
+      [] shape = "while" -> <<VarD("x"), VarD("y"), VarD("n"),
+                              Proc("proc", "main", <<>>, <<>>, SeqS(set \o <<Ass(Ref("n"), Num(0)),
+                                                                             While(Bin("and", e, Bin("<", Ref("n"), Num(2))), SeqS(<<Ass(Ref("n"), Bin("+", Ref("n"), Num(1))), Put(46)>>)),
+                                                                             Exit(Ref("n"))>>))>> \o Lib
+      [] shape = "array" -> <<VarD("x"), VarD("y"), ArrD("g", 4), ArrD("k", 2),
+                              Proc("proc", "main", <<>>, <<VarD("i")>>,
+                                   SeqS(set \o <<Ass(Idx("g", Num(2)), e), Ass(Ref("i"), Num(2)), Ass(Idx("g", Bin("+", Ref("i"), Num(1))), Idx("g", Ref("i"))),
+                                                 CallSt("h", <<Ref("k"), Idx("g", Num(3))>>), Ass(Idx("g", Num(0)), Bin("-", Idx("k", Num(1)), Idx("g", Bin("-", Ref("i"), Num(0))))),
+                                                 Exit(Bin("+", Idx("k", Num(0)), Idx("g", Num(0))))>>)),
+                              Proc("proc", "h", <<ArrF("v"), ValF("w")>>, <<>>, SeqS(<<Ass(Idx("v", Num(0)), Ref("w")), Ass(Idx("v", Bin("=", Ref("w"), Ref("w"))), Idx("v", Num(0)))>>))>> \o Lib
       [] shape = "procloc" -> <<VarD("r"), VarD("u"),
                                 Proc("proc", "main", <<>>, <<VarD("w")>>, SeqS(<<Ass(Ref("w"), Num(7)), CallSt("g", <<Num(a), Num(b)>>), Ass(Ref("u"), Bin("+", Ref("r"), Ref("w")))>>)),
                                 Proc("proc", "g", <<ValF("x"), ValF("y")>>, <<VarD("t")>>, SeqS(<<Ass(Ref("t"), e), Ass(Ref("r"), Ref("t")), NV("syscallstmt", "1", 1, <<NV("syscall", "1", 1, <<Bin("+", Ref("t"), Num(1)), Num(0)>>)>>)>>))>> \o Lib)
 
 \* ---- the two runs
 Steps(n) == [i \in 1..n |-> i]
-MachineRun(L) == FoldLeft(LAMBDA s, i : Step(L, s), Init(L), Steps(600))
+MachineRun(L) == FoldLeft(LAMBDA s, i : Step(L, s), Init(L), Steps(3000))
 DevNoSave == "nosave"
 DevSharedSlot == "sharedslot"
 Judge(c) ==
